@@ -128,6 +128,10 @@ func (w *World) Call(fn *ssa.Function, args []Value, mem *Memory) *Outcome {
 		}
 	}
 	if len(fn.Blocks) == 0 {
+		if sym := w.asmFor(fn); sym != nil {
+			w.beginRun()
+			return w.guard(fr, mem, func() (Value, *Outcome) { w.execAsm(fn, sym, args, mem); return nil, nil })
+		}
 		return &Outcome{Und: "function " + load.FuncName(fn) + " has no Go body", UndPos: w.P.Pos(fn.Pos())}
 	}
 	w.beginRun()
@@ -148,6 +152,8 @@ func (w *World) guard(fr *frame, mem *Memory, f func() (Value, *Outcome)) (out *
 				out = &Outcome{Mem: mem, Panics: x}
 			case stopRun:
 				out = &Outcome{Mem: mem, Stopped: true}
+			case asmUndecided:
+				out = &Outcome{Mem: mem, Und: fmt.Sprintf("%s in %s: %s", x.pos, x.fn, x.msg), UndPos: x.pos}
 			default:
 				panic(e)
 			}
@@ -749,6 +755,10 @@ func (w *World) doCall(fr *frame, mem *Memory, call *ssa.Call) Value {
 		panic(undecided{call, "call of " + fn.String() + " is not modelled"})
 	}
 	if len(fn.Blocks) == 0 {
+		if sym := w.asmFor(fn); sym != nil {
+			w.execAsm(fn, sym, args, mem)
+			return nil
+		}
 		panic(undecided{call, "call of " + load.FuncName(fn) + " which has no Go body (assembly)"})
 	}
 	if fr.depth+1 > MaxDepth {
